@@ -333,3 +333,4 @@ def r5_pruning(ctx, rep, R='C15.R5'):
     # always contains the built-in names
     from . import c14
     c14.default_ignores_kept(ctx, rep, R)
+    c14.symlinked_directories_followed(ctx, rep, R)
